@@ -44,7 +44,7 @@ class ParseCase:
         self.g = g; self.L = L; self.asserts = list(asserts); self.ws = ws; self.nl = nl; self.verbose = verbose; self.mode = mode
         self.lr = lr or lr1.LR1(g)
         b = lr1.bounds(g, self.lr, L, verbose=bool(verbose))
-        if g.tkinds:   # byte level: up to L tokens
+        if g.tkinds or ws or nl:   # byte level, or skipped whitespace: L bytes may hold fewer than L terms (and a shorter accepted input can take MORE steps than any L-term input)
             for l2 in range(0, L):
                 b2 = lr1.bounds(g, self.lr, l2, verbose=bool(verbose))
                 for k in ('steps', 'depth', 'nmsg', 'nred', 'nterm'): b[k] = max(b[k], b2[k])
